@@ -115,6 +115,30 @@ fn run_t<T: Pixel>(conv: Conv, meta: &Meta) -> Result<Vec<u32>, CE> {
     })
 }
 
+/// The same conversion through its other public entry point (by value instead of by reference),
+/// where one exists.
+fn run_alt_t<T: Pixel>(conv: Conv, meta: &Meta) -> Option<Result<Vec<u32>, CE>> {
+    let rgb_src = || Rgb::new(FLOATS.to_vec(), 2, 2, meta.t, meta.p).unwrap();
+    Some((|| {
+        Ok(match conv {
+            Conv::YuvToRgb => digest_f(Rgb::try_from(yuv_src::<T>(meta))?.data()),
+            Conv::RgbToYuv => digest_yuv(&Yuv::<T>::try_from((rgb_src(), meta.cfg()))?),
+            Conv::YuvToLin => digest_f(LinearRgb::try_from(yuv_src::<T>(meta))?.data()),
+            Conv::YuvToXyb => digest_f(Xyb::try_from(yuv_src::<T>(meta))?.data()),
+            _ => return Err(None),
+        })
+    })()
+    .map_err(|e: Option<CE>| e))
+    .and_then(|r: Result<Vec<u32>, Option<CE>>| match r {
+        Ok(v) => Some(Ok(v)),
+        Err(Some(e)) => Some(Err(e)),
+        Err(None) => None,
+    })
+}
+pub fn run_alt(conv: Conv, meta: &Meta) -> Result<Option<Result<Vec<u32>, CE>>, String> {
+    guarded(|| if meta.wide { run_alt_t::<u16>(conv, meta) } else { run_alt_t::<u8>(conv, meta) })
+}
+
 fn run_empty_t<T: Pixel>(conv: Conv, meta: &Meta, w: usize, h: usize) -> Result<usize, CE> {
     // zero-pixel images (0x0, 0xN, Nx0): support must not depend on the number of pixels
     let (sx, sy) = (meta.ss.0 as usize, meta.ss.1 as usize);
@@ -173,6 +197,27 @@ fn check_meta(acc: &mut Acc, idx: u64, meta: &Meta) {
                     return;
                 }
             };
+            // the other public entry point of the same conversion (by value instead of by reference)
+            // must agree with this one: same error or same samples
+            match run_alt(conv, meta) {
+                Ok(None) => {}
+                Ok(Some(alt)) => {
+                    acc.transitions += 1;
+                    if alt != r {
+                        let show = |x: &Result<Vec<u32>, CE>| match x {
+                            Ok(_) => "Ok(..)".to_string(),
+                            Err(e) => format!("Err({e:?})"),
+                        };
+                        acc.violation(idx, format!("entry-points-disagree conv={conv:?}"), format!("{:?}: by reference -> {}, by value -> {}{}", meta, show(&r), show(&alt), if r.is_ok() && alt.is_ok() { " with different samples" } else { "" }), mk());
+                        return;
+                    }
+                    acc.bucket("by-value entry point agrees with by-reference", 1);
+                }
+                Err(p) => {
+                    acc.violation(idx, format!("panic conv={conv:?} (by value) {}", panic_site(&p)), format!("{:?}: {p}", meta), mk());
+                    return;
+                }
+            }
             match &r {
                 Ok(_) => acc.bucket("Ok", 1),
                 Err(e) => {
@@ -339,7 +384,7 @@ pub fn run(_tier: Tier) -> Report {
     });
     rep.acc.merge(acc);
     rep.exhaustive = true;
-    rep.bound = format!("all 14 x 13 x 18 = 3276 fully specified (matrix, primaries, transfer) triples x {{u8/8 bit, u16/10 bit}} x {{limited, full}} x {{4:4:4, subsampled}} = {} metadata states x 10 conversions (5 forward/reverse pairs) on a 2x2 image (and, for 4:4:4, on 0x0, 0x3 and 2x0 images, which must fall into the same Ok/Err class), plus one metamorphic re-run per error; for each standard matrix all 13 x 18 label pairs for YUV<->RGB", metas.len());
+    rep.bound = format!("all 14 x 13 x 18 = 3276 fully specified (matrix, primaries, transfer) triples x {{u8/8 bit, u16/10 bit}} x {{limited, full}} x {{4:4:4, subsampled}} = {} metadata states x 10 conversions (5 forward/reverse pairs; the four that have a by-value and a by-reference entry point through both, which must agree) on a 2x2 image (and, for 4:4:4, on 0x0, 0x3 and 2x0 images, which must fall into the same Ok/Err class), plus one metamorphic re-run per error; for each standard matrix all 13 x 18 label pairs for YUV<->RGB", metas.len());
     rep.rule = "each conversion runs inside catch_unwind: Ok or an Unsupported* error whose named field is offending (replacing only that field by BT709/BT1886 removes that error); never Unspecified*; forward Ok <=> reverse Ok; YUV<->RGB and (with supported primaries) gamma<->linear return the same error; supported sets always succeed; YUV<->RGB data bit-identical across labels".into();
     rep.assumptions = vec!["'names an offending field' is decided metamorphically (DESIGN 2.3)".into()];
     rep.guard("all 3276 x 4 x 2 metadata states", metas.len() == 3276 * 8);
@@ -349,6 +394,7 @@ pub fn run(_tier: Tier) -> Report {
     rep.guard_bucket("Err(UnsupportedTransferCharacteristic)");
     rep.guard_bucket("single-stage pair: same error both ways");
     rep.guard_bucket("zero-pixel images fall into the same Ok/Err class");
+    rep.guard_bucket("by-value entry point agrees with by-reference");
     rep.guard_bucket("standard matrix: YUV<->RGB identical across label pairs");
     rep
 }
